@@ -206,7 +206,18 @@ def bind_args(eng, fi, args, kwargs, s):
             # f(x, **d) where f takes **kw: keys of d that are parameter names are not supported; d is passed on whole
             if missing:
                 raise Unsupported("**d into a function with **kwargs and unbound parameters")
-            bound[a.kwarg.arg] = d
+            # Python builds a NEW dict for the callee's **kwargs: same entries, same order
+            ref = eng.alloc(s, "dict")
+            hh = s.heap.copy()
+            for kind in ("dlen", "dkeys", "dhas", "didx", "dval"):
+                hh._put(kind, ref, s.heap._get(kind, d.ref))
+            s.heap = hh
+            # no key of d may collide with a parameter that was bound positionally
+            i = z3.Int("ks_i")
+            taken = [VStr(z3.StringVal(n)) for n in names + kwnames]
+            eng.oblige(f"{eng.qual}.call.{fi.qualname.rsplit('.', 1)[-1]}.kwargs_no_collision@L{eng.cur_line}", s,
+                       z3.And([z3.Not(h.dhas(d.ref, t)) for t in taken]) if taken else z3.BoolVal(True), "call")
+            bound[a.kwarg.arg] = sv_ref(ref, "dict")
             dstar = None
     if dstar is not None:
         d = eng.as_val(s, dstar)
@@ -398,6 +409,35 @@ def havoc_for_call(eng, c, b, s, spec_st, label):
         s.assume(h.alloc >= old_heap.alloc)
         return
     fields = c.modifies_fields
+    if all(not isinstance(r, RefSet) for r in refs):
+        # a finite frame: only these objects get unknown contents (stores of fresh components); every other
+        # object stays syntactically what it was — no frame quantifiers needed
+        if fields is None:
+            fields = sorted({f for k in eng.reg.classes.values() for f in k.fields} | set(old_heap.fld.keys()))
+        h = old_heap.copy()
+        h.alloc = fresh("call_alloc", smt.I)
+        s.assume(h.alloc >= old_heap.alloc)
+        i = z3.Int("hv_i")
+        k = z3.Const("hv_k", Val)
+
+        def live(v):
+            return z3.Implies(is_ref(v), z3.And(get_ref(v) >= 0, get_ref(v) < h.alloc))
+        for r in refs:
+            for kind, sort in ARR_KINDS.items():
+                comp = fresh("hv_" + kind, sort.range())
+                h._put(kind, r, comp)
+                if kind in ("lelem", "dkeys"):
+                    s.assume(z3.ForAll([i], live(z3.Select(comp, i)), patterns=[z3.Select(comp, i)]))
+                elif kind == "dval":
+                    s.assume(z3.ForAll([k], live(z3.Select(comp, k)), patterns=[z3.Select(comp, k)]))
+            for f in fields:
+                v = fresh("hv_fld_" + f, Val)
+                h._put("fld:" + f, r, v)
+                s.assume(live(v))
+        s.heap = h
+        if "stdout" in c.opts.get("ghost_modifies", ()):
+            s.ghost["stdout"] = (fresh("out_n", smt.I), fresh("out_arr", smt.ArrIV))
+        return
     if fields is None:
         fields = list(old_heap.fld.keys()) if refs else []
     kinds = list(ARR_KINDS) if (refs or True) else []
